@@ -227,6 +227,18 @@ var plainIdent = regexp.MustCompile(`^[A-Za-z_\x{c0}-\x{ff}][A-Za-z0-9_\x{c0}-\x
 var exprKeywords = map[string]bool{"AND": true, "OR": true, "NOT": true, "XOR": true, "LIKE": true, "IS": true, "IN": true, "NULL": true, "TRUE": true, "FALSE": true}
 
 // render joins lexemes with spacing, comments and letter-case variation (decorate=false: single spaces, as is)
+// renderZeros: integer literals are written with redundant leading zeros (the same numbers: 010 is ten)
+var renderZeros bool
+
+func allDigits(s string) bool {
+	for _, c := range s {
+		if c < '0' || c > '9' {
+			return false
+		}
+	}
+	return s != ""
+}
+
 func render(toks []xtok, r *rand.Rand, decorate bool) string {
 	var sb strings.Builder
 	wordLike := func(s string) bool {
@@ -235,6 +247,9 @@ func render(toks []xtok, r *rand.Rand, decorate bool) string {
 	}
 	for i, t := range toks {
 		lex := t.lexeme
+		if renderZeros && t.kind == "Constant" && allDigits(lex) && len(lex) < 9 {
+			lex = strings.Repeat("0", 1+i%3) + lex
+		}
 		if decorate && (t.kind != "Constant" && t.kind != "Variable" || t.ktext == "true" || t.ktext == "false") && wordLike(lex) {
 			switch r.Intn(4) {
 			case 0:
@@ -292,9 +307,11 @@ type xcall struct {
 }
 
 type recorder struct {
-	ids   map[*variants.Variant][]any
-	calls []xcall
-	rnd   *rand.Rand
+	ids    map[*variants.Variant][]any
+	calls  []xcall
+	rnd    *rand.Rand
+	failAt int  // the application with that number fails (0 = none): an operation or function that reports an error
+	both   bool // ... handing back a value together with the error
 }
 
 func (rc *recorder) id(v *variants.Variant) []any {
@@ -311,6 +328,12 @@ func (rc *recorder) apply(name string, res *variants.Variant, args ...*variants.
 	c.res = []any{"r", len(rc.calls) + 1}
 	rc.ids[res] = c.res
 	rc.calls = append(rc.calls, c)
+	if rc.failAt > 0 && len(rc.calls) == rc.failAt {
+		if rc.both {
+			return res, fmt.Errorf("application %d failed", rc.failAt)
+		}
+		return nil, fmt.Errorf("application %d failed", rc.failAt)
+	}
 	return res, nil
 }
 func (rc *recorder) fresh() *variants.Variant {
@@ -427,9 +450,9 @@ func constText(v *variants.Variant) string {
 }
 
 // evalSymbolic sets and evaluates text on a real calculator with the recording manager installed.
-func evalSymbolic(calc *calculator.ExpressionCalculator, text string, toks []xtok, varKeys []string, r *rand.Rand) Ev {
-	e := Ev{}
-	rc := &recorder{ids: map[*variants.Variant][]any{}, rnd: r}
+func evalSymbolic(calc *calculator.ExpressionCalculator, text string, toks []xtok, varKeys []string, r *rand.Rand, failAt int, both bool) Ev {
+	e := Ev{"failat": failAt, "failboth": both}
+	rc := &recorder{ids: map[*variants.Variant][]any{}, rnd: r, failAt: failAt, both: both}
 	calc.SetAutoVariables(false)
 	calc.SetVariantOperations(&recOps{rc})
 	var err error
@@ -586,7 +609,12 @@ func execC01(seg []Ev) []Ev {
 				p.out = wo
 			}
 			text := render(p.out, r, mode == 2 || toBool(in["decorate"]))
-			e := evalSymbolic(calc, text, p.out, varKeysOf(a), r)
+			// every fifth case: one of the first applications reports an error (with or without a value next to it)
+			failAt, both := 0, false
+			if seed%5 == 0 {
+				failAt, both = 1+int(seed/5)%4, (seed/20)%2 == 1
+			}
+			e := evalSymbolic(calc, text, p.out, varKeysOf(a), r, failAt, both)
 			e["wrap"] = wrap
 			e["op"], e["nodes"], e["root"], e["mode"], e["pseed"], e["decorate"] = "eval", nodesAny(a), root, mode, seed, in["decorate"]
 			toks := make([][]string, len(p.out))
@@ -647,6 +675,8 @@ func execSame(a *xast, root int, seed int64, in Ev) Ev {
 		return []any{"value", int(res.Type()), cl(res.String())}
 	}
 	e["a"] = run(0, false)
+	renderZeros = seed%2 == 0
+	defer func() { renderZeros = false }()
 	e["b"] = run(2, true)
 	return e
 }
